@@ -14,6 +14,16 @@ import (
 type MusCase struct {
 	NbVars int     `json:"nbvars"`
 	Cnf    [][]int `json:"cnf"`
+	Reuse  bool    `json:"reuse,omitempty"` // all methods are called one after the other on the SAME Problem value
+	Big    bool    `json:"big,omitempty"`   // threshold 3-SAT with a real search: no MUS counting, no MUSMaxSat
+}
+
+// genMusBig: threshold 3-SAT over 8..12 variables: the solver really searches and learns
+// (units among the learned clauses), and the same Problem is used for several extractions.
+func genMusBig(r *Rng, tier string) MusCase {
+	n := r.Range(8, 12)
+	m := int(float64(n)*4.6) + r.Range(0, n)
+	return MusCase{NbVars: n, Cnf: genKSat(r, n, m, 3), Reuse: true, Big: true}
 }
 
 func plainDimacs(n int, cnf [][]int) string {
@@ -54,13 +64,15 @@ func genMusCase(r *Rng, tier string) MusCase {
 		}
 	case 3: // satisfiable-leaning
 		cnf = genKSat(r, n, r.Range(1, 2*n), r.Range(2, 3))
+	case 4: // clauses with repeated literals / tautologies, unit-propagation refutable
+		cnf = genMessyCnf(r, n, r.Range(3, 12), 3, true)
 	default: // over-constrained: usually unsatisfiable with overlapping cores
 		cnf = genKSat(r, n, r.Range(3*n, 6*n), r.Range(1, 3))
 	}
 	if len(cnf) > 14 {
 		cnf = cnf[:14]
 	}
-	return MusCase{NbVars: n, Cnf: shuffleCnf(r, cnf)}
+	return MusCase{NbVars: n, Cnf: shuffleCnf(r, cnf), Reuse: r.Bool()}
 }
 
 // countMUSes counts the minimal unsatisfiable sub-multisets (as index sets) of cnf by brute
@@ -123,7 +135,10 @@ func init() {
 	register(&Prop{
 		ID: "C07",
 		Rule: "CNF problems over 1..6 variables with up to 14 clauses: trivially conflicting units, two disjoint cores, repeated clauses, satisfiable formulas, over-constrained formulas with overlapping cores; each handed (through explain.ParseCNF) to MUS, MUSDeletion, MUSInsertion and MUSMaxSat. The result is judged by the verified GS.subMultiset and GS.isMUSB; the receiver is compared before/after. Non-trivial = unsatisfiable input that is not already minimal; distinct = distinct clause list.",
-		Gens:    []Gen{{Name: "mus", Weight: 1, Make: func(r *Rng, tier string) interface{} { return genMusCase(r, tier) }}},
+		Gens: []Gen{
+			{Name: "mus", Weight: 4, Make: func(r *Rng, tier string) interface{} { return genMusCase(r, tier) }},
+			{Name: "mus-3sat-reuse", Weight: 1, Make: func(r *Rng, tier string) interface{} { return genMusBig(r, tier) }},
+		},
 		Run:     runMusCase,
 		Cases:   defCases(1500, 40000),
 		Timeout: defDur(15*time.Second, 60*time.Second),
@@ -150,7 +165,7 @@ func runMusCase(o *Oracle, d json.RawMessage, oc *Outcome) {
 	n := c.NbVars
 	sat := o.CnfSat(n, c.Cnf)
 	nMus := 0
-	if !sat {
+	if !sat && !c.Big {
 		nMus = countMUSes(n, c.Cnf, 3)
 		if nMus >= 2 {
 			oc.Class("more-than-one-mus")
@@ -174,8 +189,25 @@ func runMusCase(o *Oracle, d json.RawMessage, oc *Outcome) {
 		{"explain.Problem.MUSInsertion", func(pb *explain.Problem) (*explain.Problem, error) { return pb.MUSInsertion() }},
 		{"explain.Problem.MUSMaxSat", func(pb *explain.Problem) (*explain.Problem, error) { return pb.MUSMaxSat() }},
 	}
+	if c.Big {
+		oc.Nontrivial = !sat
+		oc.Tag("3sat-reuse")
+		// MUSMaxSat is exponential-ish here and has its own known finding: keep the three others, twice
+		methods = append(methods[:3], methods[:3]...)
+	}
+	if c.Reuse {
+		oc.Tag("same-problem-reused")
+	}
+	var shared *explain.Problem
 	for _, m := range methods {
-		pb, err := explain.ParseCNF(strings.NewReader(text))
+		var pb *explain.Problem
+		var err error
+		if c.Reuse && shared != nil {
+			pb = shared // the caller's problem is left unchanged by every call: it can be used again
+		} else {
+			pb, err = explain.ParseCNF(strings.NewReader(text))
+			shared = pb
+		}
 		if err != nil {
 			oc.Fail("spec", "parse-ok", "explain.ParseCNF", "plain DIMACS rejected: %v", err)
 			return
